@@ -20,7 +20,7 @@ ASSUMPTIONS = ['baselines are generated from a polynomial of degree <= the fitte
                'degenerate lines are only required not to raise and to give the configured height']
 N = {'quick': 1500, 'thorough': 100000}
 CLASSES = ['inside', 'inside', 'curved', 'curved', 'partly_outside', 'outside', 'steep', 'short', 'degenerate', 'line_cropper']
-REQUIRED = ['crops', 'grids_checked', 'curved_grids', 'pixels_compared', 'general_path_crops', 'fast_path_crops', 'shift_compared', 'degenerate_checked', 'poly0_cubic_lines', 'line_cropper_lines']
+REQUIRED = ['long_lived_cropper_crops', 'crops', 'grids_checked', 'curved_grids', 'pixels_compared', 'general_path_crops', 'fast_path_crops', 'shift_compared', 'degenerate_checked', 'poly0_cubic_lines', 'line_cropper_lines']
 # bounds (see DESIGN.md C10); measured maxima are reported in the evidence as observed_maxima
 B_CHORD = 0.05        # relative non-uniformity of the advance along the baseline row
 B_STEP = 0.02         # relative error of the mean advance vs (h_up+h_down)*scale/H (plus end effect 1/(W-1))
@@ -55,6 +55,7 @@ def setup(ctx):
     hooks.wrap(crop_engine.EngineLineCropper, 'get_crop_inputs', rec('get_crop_inputs'))
     hooks.wrap(crop_engine.EngineLineCropper, 'fast_remap', rec('fast_remap'))
     ctx.images = {}
+    ctx.long_lived = {}      # one cropper per configuration, used for every case of this worker: results must not depend on what it cropped before
 
 
 def image(ctx, kind, Himg=1000, Wimg=1400):
@@ -151,6 +152,7 @@ def check(case, mon, ctx):
     img = image(ctx, case['image'])
     if cls == 'line_cropper':
         return check_line_cropper(case, mon, ctx)
+    old_eng = ctx.long_lived.setdefault((H, poly, scale), ctx.ce.EngineLineCropper(line_height=H, poly=poly, scale=scale))
     del ctx.swallowed[:]
     with contextlib.redirect_stdout(io.StringIO()):
         try:
@@ -158,6 +160,16 @@ def check(case, mon, ctx):
         except BaseException as e:
             mon.violation('never-an-error', {'exception': repr(e)[:300]})
             return
+        try:
+            crop_old = old_eng.crop(img, pts, hh)
+        except BaseException as e:
+            crop_old = None
+    mon.count('long_lived_cropper_crops')
+    if crop_old is None or crop_old.shape != crop.shape or np.abs(crop_old.astype(int) - crop.astype(int)).max(initial=0) > 0:
+        mon.violation('crop-independent-of-earlier-crops', {'note': 'a cropper that has cropped other lines before gives a different crop than a fresh one',
+                      'fresh_shape': list(crop.shape), 'long_lived_shape': None if crop_old is None else list(crop_old.shape),
+                      'config': {'poly': old_eng.poly, 'line_height': old_eng.line_height, 'scale': old_eng.scale}, 'configured': {'poly': poly, 'line_height': H, 'scale': scale}})
+    del ctx.swallowed[:]
     mon.count('crops')
     if crop.shape[0] != H or crop.ndim != 3 or crop.shape[2] != 3:
         mon.violation('configured-height', {'shape': list(crop.shape), 'H': H})
@@ -278,9 +290,11 @@ def check_line_cropper(case, mon, ctx):
     pl = L.PageLayout(id='p', page_size=img.shape[:2])
     reg = L.RegionLayout('r', np.array([[0, 0], [1400, 0], [1400, 1000], [0, 1000]]))
     pts = np.array(case['baseline'])
-    reg.lines.append(L.TextLine(id='l0', baseline=pts, heights=list(case['heights'])))
     reg.lines.append(L.TextLine(id='l1', baseline=np.array([[300.0, 300.0], [300.0, 500.0]]), heights=[10.0, 5.0]))       # vertical
     reg.lines.append(L.TextLine(id='l2', baseline=np.array([[300.0, 300.0]]), heights=[10.0, 5.0]))                       # single point
+    reg.lines.append(L.TextLine(id='l3', baseline=np.array([[100.0, 700.0], [400.0, 705.0]]), heights=[20.0, 6.0]))        # two-point line
+    reg.lines.append(L.TextLine(id='l4', baseline=np.array([[100.0, 800.0], [250.0, 803.0], [400.0, 801.0]]), heights=[20.0, 6.0]))   # three points
+    reg.lines.append(L.TextLine(id='l0', baseline=pts, heights=list(case['heights'])))                                     # the case's line, cropped LAST
     pl.regions.append(reg)
     del ctx.swallowed[:]
     with contextlib.redirect_stdout(io.StringIO()):
@@ -296,5 +310,6 @@ def check_line_cropper(case, mon, ctx):
     eng = ctx.ce.EngineLineCropper(line_height=case['H'], poly=case['poly'], scale=case['scale'])
     with contextlib.redirect_stdout(io.StringIO()):
         direct = eng.crop(img, pts, case['heights'])
-    if reg.lines[0].crop is not None and (reg.lines[0].crop.shape != direct.shape or np.abs(reg.lines[0].crop.astype(int) - direct.astype(int)).max(initial=0) > 0):
-        mon.violation('line-cropper-uses-configured-engine', {'shape': list(reg.lines[0].crop.shape), 'expected': list(direct.shape)})
+    last = reg.lines[-1]
+    if last.crop is not None and (last.crop.shape != direct.shape or np.abs(last.crop.astype(int) - direct.astype(int)).max(initial=0) > 0):
+        mon.violation('crop-independent-of-earlier-crops', {'via': 'LineCropper.process_page: the last line of a page vs the same line on a fresh cropper', 'shape': list(last.crop.shape), 'expected': list(direct.shape)})
